@@ -56,11 +56,14 @@ K2 = '{"k1", "k2"}'
 V2 = '{"v0", "v1"}'
 
 
-def mc_cfg(name, invs, maxops, configs="MCConfigs", crashes=0, ops=ALL_OPS, spec="Spec", props=()):
+VBIG = '{"v0", "vB"}'     # "vB": 9000 bytes, above the write buffer (its record takes two write(2) calls, its merge copy two pieces)
+
+
+def mc_cfg(name, invs, maxops, configs="MCConfigs", crashes=0, ops=ALL_OPS, spec="Spec", props=(), vals=V2):
     inv = ("INVARIANTS " + " ".join(invs)) if invs else ""
     if props:
         inv += "\nPROPERTY " + " ".join(props)
-    return write_cfg(name, MC_TMPL.format(spec=spec, keys=K2, vals=V2, configs=configs, maxops=maxops,
+    return write_cfg(name, MC_TMPL.format(spec=spec, keys=K2, vals=vals, configs=configs, maxops=maxops,
                                           crashes=crashes, ops=ops, invs=inv))
 
 
@@ -69,8 +72,11 @@ def model_check(v, prop, tier):
     invs = PROPS[prop]["mc"]
     plans = [("MC_Seq ops<=4, 16 configs", 4, "MCConfigs")] if tier == "quick" else \
             [("MC_Seq ops<=5, 16 configs", 5, "MCConfigs")]
+    # the same with a value above the write buffer (two-call appends, merge copies in two pieces), file sizes
+    # below one such record / between one and two / unbounded
+    plans.append(("MC_Seq big value (9000 B), ops<=%d, 9 configs" % (3 if tier == "quick" else 4), 3 if tier == "quick" else 4, "MCConfigsBig"))
     for label, maxops, configs in plans:
-        cfg = mc_cfg(f"mc_{prop}_{maxops}.cfg", invs, maxops, configs)
+        cfg = mc_cfg(f"mc_{prop}_{maxops}_{configs}.cfg", invs, maxops, configs, vals=VBIG if configs == "MCConfigsBig" else V2)
         r = tlc("MC_Seq.tla", cfg, workers=NCPU, timeout=3000, xmx="16g", metatag=f"mc-{prop}-{os.getpid()}")
         v.add_tlc(label, r)
         if not r.ok:
@@ -210,6 +216,46 @@ def failed_merges(v, tier, tag):
         shutil.rmtree(os.path.join(OUT, "work", tag + "-fm"), ignore_errors=True)
 
 
+def hints_after_crash(v, tier, tag):
+    """C12 in histories with a kill: every behaviour of the generated set that contains a merge is run under the
+    recording shim; for every boundary between two mutating calls the directory a kill there leaves is recovered,
+    used further (put, restart, deletes / overwrites, a merge) and finally opened twice, with and without its hint
+    files (TraceFs: C12_AfterCrash)."""
+    import fscalls
+    gfile, ng = fscalls.gen_behaviours(v, tier, tag + "-hc", "none")
+    lines = open(gfile).read().splitlines()
+    keep = [lines[0]] + [x for x in lines[1:] if ["merge"] in json.loads(x)["ops"]]
+    open(gfile, "w").write("\n".join(keep) + "\n")
+    pre = os.path.join(OUT, "work", tag + "-hc", "hc")
+    files, sums, aborts = run_shards("fsdrive", ["crash", gfile, pre, "--seed", str(seed()), "--max-points", "1000000"],
+                                     pre, min(NCPU, max(1, len(keep) - 1)))
+    if aborts:
+        v.cov.setdefault("process_deaths_in_code_under_test", []).extend(aborts[:5])
+    fscalls.validate(v, "C12", files, tag + "-hc")
+    v.cov["crash_probes_with_hintless_restart"] = sum(x.get("probes", 0) for x in sums)
+    v.cov["crash_behaviours"] = len(keep) - 1
+    if not v.violations:
+        shutil.rmtree(os.path.join(OUT, "work", tag + "-hc"), ignore_errors=True)
+
+
+def model_check_c12_crash(v, tier):
+    """HintsAreAccelerator also after a kill (MaxCrashes = 1), and the vacuity guard: with the repair of D8
+    switched off (a file recovered from an empty hint file stays unknown to merge selection) TLC must find the
+    history put; merge killed between copy and hint; del; merge."""
+    maxops = 3 if tier == "quick" else 4
+    cfg = mc_cfg(f"mc_C12_crash_{maxops}.cfg", ["HintsAreAccelerator", "RebuildAgrees"], maxops, "MCConfigs", crashes=1)
+    r = tlc("MC_Seq.tla", cfg, workers=NCPU, timeout=3000, xmx="16g", metatag=f"mc-C12c-{os.getpid()}")
+    v.add_tlc(f"MC_Seq + one Crash, ops<={maxops}, 16 configs: HintsAreAccelerator, RebuildAgrees", r)
+    if not r.ok:
+        raise ToolError(f"specification check failed for C12 (with a crash): {r.violated or r.eval_error}\n{r.out[-3000:]}")
+    text = MC_TMPL.format(spec="Spec", keys=K2, vals='{"v0"}', configs="MCConfigsOneAll", maxops=4, crashes=1, ops=ALL_OPS,
+                          invs="INVARIANTS HintsAreAccelerator").replace("Deviations = {}", 'Deviations = {"HintFileUnknownToStats"}')
+    r = tlc("MC_Seq.tla", write_cfg("mc_C12_crash_dev.cfg", text), workers=NCPU, timeout=3000, xmx="16g", metatag=f"mc-C12d-{os.getpid()}")
+    if r.violated != "HintsAreAccelerator":
+        raise ToolError(f"Bitcask.tla with HintFileUnknownToStats should violate HintsAreAccelerator, got {r.violated or 'no violation'}")
+    v.cov.setdefault("deviations_rejected_by_the_model", []).append("HintFileUnknownToStats -> HintsAreAccelerator (after a kill inside a merge)")
+
+
 def check(prop, tier):
     v = Verdict(prop, tier)
     tag = f"{prop}-{os.getpid()}"
@@ -217,11 +263,15 @@ def check(prop, tier):
     try:
         build_harness()
         model_check(v, prop, tier)
+        if prop == "C12":
+            model_check_c12_crash(v, tier)
         bfile, nb, bstats = generate(v, tier, tag)
         files, summary = drive(v, tier, tag, bfile)
         validate(v, prop, files, PROPS[prop]["trace"], tag)
         if prop == "C05" and not v.violations:
             failed_merges(v, tier, tag)
+        if prop == "C12" and not v.violations:
+            hints_after_crash(v, tier, tag)
         nruns = sum(s["runs"] for s in summary.values())
         v.cov["traces_validated_against_impl"] = nruns
         v.cov["behaviours_generated_by_tlc"] = nb
